@@ -163,9 +163,32 @@ fn main() {
             gs.sort();
             es.sort();
         }
+        // the TERMS of the answers must agree up to renaming of the reified variables (the finite
+        // universe of the denotations cannot tell deep terms apart): both sides bind the query
+        // variables by most general unifiers, so corresponding answers are variants
+        let is_ground = |ts: &Vec<T>| {
+            let mut vs = vec![];
+            ts.iter().for_each(|t| t.vars(&mut vs));
+            vs.is_empty()
+        };
+        let mut ground_got: Vec<Vec<T>> = answers.iter().map(|a| pvmc::refm::canon_tuple(&a.terms)).collect();
+        let mut ground_exp: Vec<Vec<T>> = vec![];
+        for a in reference.iter() {
+            // a residual disequality over ground terms whose pairs are all equal is violated:
+            // such a reference answer denotes nothing
+            let violated = a.neqs.iter().any(|d| d.iter().all(|(l, r)| is_ground(&vec![l.clone(), r.clone()]) && l == r));
+            if !violated {
+                let t: Vec<T> = a.tuple.iter().map(|t| t.strip_some()).collect();
+                ground_exp.push(pvmc::refm::canon_tuple(&t));
+            }
+        }
+        ground_got.sort();
+        ground_exp.sort();
         if gs != es {
             let kind = if got.len() != exp.len() { "answer-count" } else if c.ordered { "wrong-or-misordered-answers" } else { "wrong-answers" };
             ctx.violation(mk(kind, format!("compiled program answers {:?}; reference semantics {:?}", show(&answers), showr(&reference)), String::new()));
+        } else if ground_got != ground_exp {
+            ctx.violation(mk("wrong-answers", format!("the answer terms differ (up to renaming): compiled program {:?}; reference semantics {:?}", show(&answers), showr(&reference)), String::new()));
         } else if !answers.is_empty() {
             nontrivial += 1;
             ctx.hist("programs-with-answers", 1);
